@@ -11,6 +11,7 @@ SPEC = os.path.join(VERIF, "spec")
 RUN = os.path.join(VERIF, "build", "run")
 NCPU = min(16, os.cpu_count() or 4)
 FATAL = ("uad", "crash", "hang", "deadlock")
+DEADLOCK_IS_VIOLATION = ("C03", "C04", "C05")
 
 
 def log(*a):
@@ -41,6 +42,7 @@ class Ctx:
         self.inconclusive = 0
         self.rng = random.Random(seed)
         self.machinery_errors = []
+        self.anomalies = {}
 
     def quick(self):
         return self.tier == "quick"
@@ -221,6 +223,21 @@ def validate_histories(ctx, jobs, lin_module, cfg_consts, group=None, prop=None,
     if not hist:
         return []
     ctx.distinct += len(hist)
+    # deadlocks: completion is part of the statement only for C03/C04/C05; elsewhere a deadlock is an anomaly, not a violation of
+    # the (safety) property, and the incomplete history is not judged
+    if (prop or ctx.prop) not in DEADLOCK_IS_VIOLATION:
+        keep = []
+        for rec in hist:
+            if any('"op":"deadlock"' in l or '"op":"hang"' in l for l in rec[2]):
+                ctx.anomalies.setdefault("deadlock", []).append({"variant": rec[0].variant, "program": rec[0].program, "schedule": rec[3]})
+            else:
+                keep.append(rec)
+        if len(keep) != len(hist):
+            seenv = sorted(set(a["variant"] for a in ctx.anomalies["deadlock"]))
+            log("  ANOMALY (not a violation of %s): %d deadlocked / non-terminating executions in variants %s" % (prop or ctx.prop, len(hist) - len(keep), ",".join(seenv)))
+        hist = keep
+        if not hist:
+            return []
     # de-duplicate identical histories across jobs of the same group
     uniq = {}
     for rec in hist:
@@ -468,6 +485,7 @@ def write_evidence(ctx, level="model_checking", extra=None):
         "executions": ctx.executions, "distinct_histories": ctx.distinct, "inconclusive_executions": ctx.inconclusive,
         "model_runs": ctx.model_runs, "impl_runs": ctx.impl_runs, "known_findings_matched": ctx.known, "notes": ctx.notes,
         "tree_hash": build.tree_hash(), "machinery_errors": ctx.machinery_errors,
+        "anomalies": {k: {"count": len(v), "examples": v[:3]} for k, v in ctx.anomalies.items()},
     }
     if extra:
         cov.update(extra)
